@@ -393,13 +393,13 @@ func (m *Machine) formatArg(verb byte, arg Value) StringV {
 		return m.strConst(eo.msg)
 	}
 	if verb == 's' || verb == 'v' || verb == 'q' {
-		if meth := m.prog.LookupMethod(iv.t, nil, "String"); meth != nil && m.merge == nil {
+		if meth := m.findMethod(iv.t, "String"); meth != nil && m.merge == nil {
 			r := m.callFunction(meth, []Value{iv.v})
 			if s, ok := r.(StringV); ok {
 				return s
 			}
 		}
-		if meth := m.prog.LookupMethod(iv.t, nil, "Error"); meth != nil && m.merge == nil {
+		if meth := m.findMethod(iv.t, "Error"); meth != nil && m.merge == nil {
 			r := m.callFunction(meth, []Value{iv.v})
 			if s, ok := r.(StringV); ok {
 				return s
@@ -496,7 +496,7 @@ func (m *Machine) errorsAs(err IfaceV, target IfaceV) Value {
 			if w, ok := eo.wrapped.(IfaceV); ok {
 				next = w
 			}
-		} else if meth := m.prog.LookupMethod(cur.t, nil, "Unwrap"); meth != nil {
+		} else if meth := m.findMethod(cur.t, "Unwrap"); meth != nil {
 			if r, ok := m.callFunction(meth, []Value{cur.v}).(IfaceV); ok {
 				next = r
 			}
@@ -517,7 +517,7 @@ func (m *Machine) errorsIs(err IfaceV, target IfaceV) Value {
 			if w, ok := eo.wrapped.(IfaceV); ok {
 				next = w
 			}
-		} else if meth := m.prog.LookupMethod(cur.t, nil, "Unwrap"); meth != nil {
+		} else if meth := m.findMethod(cur.t, "Unwrap"); meth != nil {
 			if r, ok := m.callFunction(meth, []Value{cur.v}).(IfaceV); ok {
 				next = r
 			}
@@ -622,4 +622,15 @@ func (m *Machine) builderAppend(p Pointer, b []*Term) {
 	old := m.builderBytes(p)
 	nb := append(append([]*Term(nil), old...), b...)
 	m.store(cell, m.bytesSlice(nb))
+}
+
+// findMethod returns the method named name of type t (exported or not), or nil.
+func (m *Machine) findMethod(t types.Type, name string) *ssa.Function {
+	ms := m.prog.MethodSets.MethodSet(t)
+	for i := 0; i < ms.Len(); i++ {
+		if ms.At(i).Obj().Name() == name {
+			return m.prog.MethodValue(ms.At(i))
+		}
+	}
+	return nil
 }
